@@ -9,6 +9,8 @@ EXTENDS JsonVal
 U == { Nothing, Null, Bool(TRUE), Bool(FALSE),
        Num(0, 0), Num(1, 0), Num(-1, 0), Num(15, -1), Num(1, 2), Num(100, 0), Num(10, 1), Num(-15, -1), Num(25, -4),
        Num(1, -1), Num(999999999, 0), Num(999999999, -9), Num(1, 9),
+       NumDs(FALSE, <<9,0,0,7,1,9,9,2,5,4,7,4,0,9,9,2>>, 0), NumDs(FALSE, <<9,0,0,7,1,9,9,2,5,4,7,4,0,9,9,3>>, 0),
+       NumDs(TRUE, <<9,0,0,7,1,9,9,2,5,4,7,4,0,9,9,3>>, 0), NumDs(FALSE, <<1>>, 25), NumDs(FALSE, <<1,0,0,0,0,0,0,0,0,0,0,0,0,0,0,0,0,0,0,0,0,0,0,0,0,1>>, 0),
        Str(<<>>), Str(<<97>>), Str(<<98>>), Str(<<97, 98>>), Str(<<65535>>), Str(<<65536>>), Str(<<49>>),
        Arr(<<>>), Arr(<<Num(1, 0)>>), Arr(<<Bool(TRUE)>>), Arr(<<Num(0, 0)>>), Arr(<<Bool(FALSE)>>),
        Arr(<<Num(1, 0), Arr(<<Bool(TRUE)>>)>>), Arr(<<Num(1, 0), Arr(<<Num(1, 0)>>)>>), Arr(<<Arr(<<>>)>>),
